@@ -120,6 +120,11 @@ def agree(cx, got, v, path, node=None, tname=None):
     if isinstance(v, T.Bits_):
         cx.claim(f'{path}: bit string', bits_eq(w, got, v.seq))
         return
+    if isinstance(v, tuple) and v and v[0] == 'pruned':
+        # the value was replaced by a pruned branch (Merkle proof / update): nothing to compare; the library gives None, the
+        # cell itself or a slice of it
+        cx.skipped.append(path + ' (pruned)')
+        return
     if isinstance(v, tuple) and v and v[0] == 'either':
         return agree(cx, got, v[2], path, node, tname)
     if isinstance(v, tuple) and v and v[0] == 'any':
@@ -184,6 +189,9 @@ def agree_dict(cx, got, v, path, node=None):
         else:
             cx.claim(f'{path}: augmented dictionary returned as (dict, extras)', False)
             return
+    if getattr(v, 'pruned_root', False):
+        cx.skipped.append(path + ' (pruned root)')
+        return
     if not v.entries:
         cx.claim(f'{path}: empty dictionary', got is None or (isinstance(got, (dict, list)) and len(got) == 0))
         return
@@ -207,7 +215,9 @@ def agree_dict(cx, got, v, path, node=None):
             else:
                 cx.claim(f'{path}: key {key:#x} present', False)
     if v.aug and extras is not None:
-        exp = [e for _, _, e in v.entries] + ([v.fork_extra] if v.fork_extra is not None else [])
+        exp = getattr(v, 'extras_seq', None)
+        if exp is None:
+            exp = [e for _, _, e in v.entries] + ([v.fork_extra] if v.fork_extra is not None else [])
         cx.claim(f'{path}: {len(exp)} node extras', len(extras) == len(exp))
         if len(extras) == len(exp):
             for i, (g, e) in enumerate(zip(extras, exp)):
